@@ -1,5 +1,9 @@
 """python3-vt -m pyvc.cli <qualname> : verify one function against its contract (debug aid)."""
-import sys, time
+import os
+import sys
+import time
+
+os.environ.setdefault("PYVC_OPEN_BEFORE_CUT", "1000000")  # debugging tool: full budget for every obligation
 sys.path.insert(0, "/verif")
 import contracts  # noqa
 from pyvc.execu import CONTRACTS
